@@ -71,7 +71,11 @@ Scenarios1 == {[geo |-> 1, terms |-> SetToSeq(T), jp |-> jp, opts |-> op, follow
 Scen2(g, Cat) == {[geo |-> g, reg |-> 1, terms |-> SetToSeq(T), jp |-> <<0, 0>>, opts |-> op, follow |-> f] :
                     T \in {T \in SUBSET Cat : Cardinality(T) \in {3, 4}}, op \in {2, 6}, f \in 0..3}
 Scenarios2 == Scen2(0, TermCat) \cup Scen2(1, TermCat1)
-Scenarios == {[geo |-> x.geo, reg |-> 0, terms |-> x.terms, jp |-> x.jp, opts |-> x.opts, follow |-> x.follow] : x \in Scenarios0 \cup Scenarios1} \cup Scenarios2
+\* pass = 1 (first geometry, registration by junction): the last terminal hangs on a second junction with just two connectors, which
+\* sits between the registered junction and that terminal (a junction made by splitting a connector)
+Scenarios == {[geo |-> x.geo, reg |-> 0, pass |-> 0, terms |-> x.terms, jp |-> x.jp, opts |-> x.opts, follow |-> x.follow] : x \in Scenarios0 \cup Scenarios1}
+             \cup {[geo |-> 0, reg |-> 0, pass |-> 1, terms |-> x.terms, jp |-> x.jp, opts |-> x.opts, follow |-> x.follow] : x \in {y \in Scenarios0 : Len(y.terms) = 4}}
+             \cup {[geo |-> x.geo, reg |-> 1, pass |-> 0, terms |-> x.terms, jp |-> x.jp, opts |-> x.opts, follow |-> x.follow] : x \in Scenarios2}
 GenInit == /\ JsonSerialize(IOEnv.HYPERGEN, SetToSeq(Scenarios)) /\ k = Cardinality(Scenarios) /\ phase = "gen" /\ bad = {}
 GenSpec == GenInit /\ [][UNCHANGED vars]_vars
 =============================================================================
